@@ -199,6 +199,16 @@ class CallMixin:
                 yield from self.call_method(br, SV(o.e, "ref:Config"), "Config", attr, args, kwargs, cx)
             rest = st.clone()
             rest.assume(z3.Not(isc))
+            if attr == "__setitem__":
+                # a typed dict / list value reached by a dotted path: its own __setitem__ (contract), which does change it
+                for pc in ("DictProxy",):     # (a list reached by a dotted path gets a str index: TypeError, the opaque branch)
+                    isp = self.o.is_type(o.e, "ref:" + pc)
+                    bp = rest.clone()
+                    bp.assume(isp)
+                    if self.o.feasible(bp):
+                        yield from self.call_method(bp, SV(o.e, "ref:" + pc), pc, attr, args, kwargs, cx)
+                    rest = rest.clone()
+                    rest.assume(z3.Not(isp))
             if self.o.feasible(rest):
                 a = rest.clone()
                 res = SV(self.w.freshV("opaque"))
@@ -722,13 +732,42 @@ class CallMixin:
                 st.assume(a)
             st.terms = st.terms + o2.terms[len(sp.old.terms):]
             return res
+        # quantifier context (dynamic scope while one clause is translated): polarity of the position, the guards a
+        # quantified hypothesis holds under, and positions where a quantifier cannot be handled at all
         if fn == "implies":
-            return o.bool_(z3.Implies(T(0), T(1)))
+            q0 = self.qctx()
+            ante = e.args[0]
+            conj = list(ante.values) if isinstance(ante, ast.BoolOp) and isinstance(ante.op, ast.And) else [ante]
+            foralls = [c for c in conj if isinstance(c, ast.Call) and isinstance(c.func, ast.Name) and c.func.id == "forall"]
+            if foralls and sp.mode != "assume" and q0["pol"] > 0 and not q0["forbid"]:
+                # goal  G = guards -> ((forall k. P(k)) and A -> Q):  proved as  guards -> (A -> Q)  under the hypothesis schema
+                # guards and A -> P(t), which is local to this obligation (it travels with the clause's Skolem list)
+                others = [c for c in conj if c not in foralls]
+                with self.qscope(flip=True):
+                    a = z3.And([o.truthy(st, self.ev1(st, c, cx)) for c in others]) if others else z3.BoolVal(True)
+                g = z3.And(list(q0["guards"]) + [a])
+                for fc in foralls:
+                    kind, inst = self.forall_parts(st, fc, cx)
+                    sp.skolems.append(("__schema__", Schema(kind, lambda t, inst=inst, g=g: z3.Implies(g, inst(t, style="hyp")), "hypothesis")))
+                with self.qscope(guard=a):
+                    b = T(1)
+                return o.bool_(z3.Implies(a, b))
+            with self.qscope(flip=True):
+                a = T(0)
+            with self.qscope(guard=a):
+                b = T(1)
+            return o.bool_(z3.Implies(a, b))
         if fn == "iff":
-            return o.bool_(T(0) == T(1))
+            with self.qscope(forbid="iff"):
+                return o.bool_(T(0) == T(1))
         if fn == "ite":
-            a, b = A(1), A(2)
-            return SV(z3.If(T(0), a.e, b.e), a.ty if a.ty == b.ty else None)
+            with self.qscope(forbid="the condition of ite"):
+                c = T(0)
+            with self.qscope(guard=c):
+                a = A(1)
+            with self.qscope(guard=z3.Not(c)):
+                b = A(2)
+            return SV(z3.If(c, a.e, b.e), a.ty if a.ty == b.ty else None)
         if fn == "exc_is":
             return o.bool_(z3.Or([w.subclass(sp.exc.cls, a.id) for a in e.args]))
         if fn == "exc_obj":
@@ -858,7 +897,11 @@ class CallMixin:
         sp.skolems.append(("ref", sk))
         return schema(sk)
 
-    def spec_forall(self, st, e, cx):
+    def forall_parts(self, st, e, cx):
+        """(kind, instance builder) of a forall(...) call"""
+        return self.spec_forall(st, e, cx, parts_only=True)
+
+    def spec_forall(self, st, e, cx, parts_only=False):
         """forall('k:kind', 'body') -- Skolemised when proved, kept as schema when assumed"""
         w = self.w
         sp = cx.spec
@@ -867,7 +910,11 @@ class CallMixin:
         sort = {"ref": z3.IntSort(), "cfg": z3.IntSort(), "int": z3.IntSort(), "key": w.V, "val": w.V, "str": z3.StringSort(),
                 "bytes": z3.SeqSort(z3.BitVecSort(8))}[kind]
 
-        def inst(t, st=st, cx=cx):
+        def inst(t, st=st, cx=cx, style=None):
+            """style: how the axiom instances met while translating the body (typing, dict well-formedness: always true) are
+            attached -- 'goal': as antecedent of the instance; 'hyp': conjoined (the instance is a hypothesis); 'facts':
+            returned separately as (facts, instance)"""
+            style = style or ("hyp" if sp.mode == "assume" else "goal")
             names = dict(sp.names)
             names[var] = {"ref": lambda: SV(w.V.ref(t), "ref:object"), "cfg": lambda: SV(w.V.ref(t), "ref:Config"),
                           "int": lambda: SV(w.V.int(t), "int"), "str": lambda: SV(w.V.str(t), "str"),
@@ -877,12 +924,60 @@ class CallMixin:
             sp2 = Spec(sp.old, names, onames, sp.exc, sp.mode)
             st2 = st.clone()
             n0 = len(st2.pc)
-            f = self.spec_truth(st2, body, cx.with_spec(sp2))
+            with self.qscope(reset=True):
+                f = self.spec_truth(st2, body, cx.with_spec(sp2))
             extra = st2.pc[n0:]
-            return z3.Implies(z3.And(extra), f) if extra and sp.mode != "assume" else (z3.And(extra + [f]) if extra else f)
-        if sp.mode == "assume":
-            st.schemas = st.schemas + [Schema(kind, inst, "forall")]
+            if style == "facts":
+                return extra, f
+            if not extra:
+                return f
+            return z3.Implies(z3.And(extra), f) if style == "goal" else z3.And(extra + [f])
+        if parts_only:
+            return kind, inst
+        q = self.qctx()
+        if q["forbid"]:
+            raise Unsupported("forall under %s" % q["forbid"])
+        positive = q["pol"] > 0
+        if sp.mode == "assume" and positive:
+            # a quantified hypothesis: kept as a schema that holds under the guards of its position
+            guards = list(q["guards"])
+            if guards:
+                g = z3.And(guards)
+                st.schemas = st.schemas + [Schema(kind, lambda t, inst=inst, g=g: z3.Implies(g, inst(t)), "forall")]
+            else:
+                st.schemas = st.schemas + [Schema(kind, inst, "forall")]
             return self.o.bool_(True)
+        # a goal in positive position, or a hypothesis in negative position ((forall k. P) -> Q is exists k. (P -> Q)): one
+        # fresh constant.  (A goal in negative position is also Skolemised: that proves a stronger statement, which is sound.)
         sk = w.fresh("sk_" + var, sort)
         sp.skolems.append((kind, sk))
+        if sp.mode == "assume":
+            # negative position of a hypothesis: the instance sits in an antecedent; the axiom instances it needs are facts
+            st.terms.append((kind, sk))
+            facts, f = inst(sk, style="facts")
+            for a in facts:
+                st.assume(a)
+            return self.o.bool_(f)
         return self.o.bool_(inst(sk))
+
+    # ---- quantifier context
+    def qctx(self):
+        if not getattr(self, "_qstack", None):
+            self._qstack = [{"pol": 1, "guards": [], "forbid": None}]
+        return self._qstack[-1]
+
+    def qscope(self, flip=False, guard=None, forbid=None, reset=False):
+        ex = self
+
+        class _Scope:
+            def __enter__(self_):
+                cur = ex.qctx()
+                new = {"pol": 1, "guards": [], "forbid": None} if reset else \
+                    {"pol": -cur["pol"] if flip else cur["pol"], "guards": cur["guards"] + ([guard] if guard is not None else []),
+                     "forbid": forbid or cur["forbid"]}
+                ex._qstack.append(new)
+
+            def __exit__(self_, *a):
+                ex._qstack.pop()
+                return False
+        return _Scope()
